@@ -962,8 +962,13 @@ impl InferContext {
 
     /// Register type aliases from ModuleInfo into the type environment
     fn register_type_aliases(&mut self, type_aliases: &crate::ast::program::TypeAliasMap) {
-        // Store type aliases for resolution during unification
+        // Store type aliases for resolution during unification. A cyclic alias is
+        // only reported (below): alias resolution follows aliases recursively and
+        // would not terminate on it.
         for (alias_name, target_type) in type_aliases {
+            if Self::detect_type_alias_cycle(*alias_name, type_aliases).is_some() {
+                continue;
+            }
             self.type_aliases.insert(*alias_name, *target_type);
             // Also add to environment for name resolution
             self.env
